@@ -204,3 +204,31 @@ def r_raw_getitem_indexes_in_place(prog: Program, col: Collector, refs: Refs, ca
     col.check(bad is None, f"{f.fq}::index tuple", f"lhs[(slice(None),) * offset + (rhs,)] in effect, for offset 0..4 ({n} cases)",
               f"for offset {bad[0]} the kernel {bad[1]}; the interpreter's tensor rule selects along dimension {bad[0]} in place, so a compiled program and the interpreted term disagree" if bad else "",
               f.loc(bad[2]) if bad else f.loc())
+
+
+def r_shape_only_ops_keep_dtype(prog: Program, col: Collector, refs: Refs, cat: Catalogue, rule: str):
+    """Indexing, slicing and reshaping select or re-arrange entries; the entries themselves are unchanged, so the eager result has the
+    dtype of the operand (a bounded integer stays a bounded integer - that is what find_domain declares for the lazy term).  A rule
+    for such an op that builds its result with `Tensor(data, inputs)` falls back to the default dtype "real"."""
+    col.rule(rule, "eager rules for getitem / getslice / reshape build their Tensor with the operand's dtype", floor=4)
+    SHAPE_ONLY = ("GetitemOp", "GetsliceOp", "ReshapeOp")
+    n = 0
+    seen = set()
+    for reg in cat.registrations:
+        f = reg.target
+        if f is None or len(reg.pattern) < 3 or isinstance(f.node, ast.Lambda) or f.fq in seen or not reg.registry.startswith("funsor.interpretations."):
+            continue
+        pats = [refs.resolve(p) if isinstance(p, (ast.Name, ast.Attribute)) else None for p in reg.pattern]
+        if pats[0] not in ("funsor.terms.Unary", "funsor.terms.Binary") or not (pats[1] or "").rsplit(".", 1)[-1] in SHAPE_ONLY or pats[2] != "funsor.tensor.Tensor":
+            continue
+        seen.add(f.fq)
+        operand = f.positional[1]
+        for r in [x for x in walk_no_nested(f.node) if isinstance(x, ast.Return) and isinstance(x.value, ast.Call) and (refs.resolve(x.value.func) or "") == "funsor.tensor.Tensor"]:
+            n += 1
+            c = r.value
+            dt = c.args[2] if len(c.args) >= 3 else next((k.value for k in c.keywords if k.arg == "dtype"), None)
+            ok = dt is not None and norm(dt) == f"{operand}.dtype"
+            col.check(ok, f"{f.fq}::{norm(r)[:60]}", f"the result carries `{operand}.dtype`",
+                      f"the result is built as `{norm(c)[:50]}`" + (" without a dtype (default \"real\")" if dt is None else f" with dtype `{norm(dt)}`")
+                      + f": selecting entries of a Bint-valued `{operand}` then yields a real-valued Tensor, while the lazy term is declared with the operand's dtype", f.loc(r))
+    col.cur.analysed["shape_only_tensor_results"] = n
